@@ -14,6 +14,8 @@ Local Open Scope N_scope.
 
 Theorem SRC_execute_encrypt_is_model : forall c hbuf T P key seed cm hm rnd,
   enc_params c hbuf T P key seed cm hm ->
+  forallb (fun b => (0 <? b) && (b <? 256)) seed = true ->           (* = RefineFileHeader.seed_ok: the C code takes strlen of the seed *)
+  N.of_nat (length seed) < 2 ^ 32 ->                                 (* the C code casts that strlen to u32 (as in Properties_Src2's header theorem) *)
   N.of_nat (16 * c) < 2 ^ 32 -> N.of_nat (64 * hbuf) < 2 ^ 32 ->
   match src_encrypt_file c hbuf T cm hm P key seed rnd with
   | SOk (b, o, i, _) => b = true /\ enc c hbuf T P key cm hm seed = FileModel.Ok o /\ i = P
